@@ -88,14 +88,7 @@ def reportedCols : Nat → List (List Nat) → Option Nat
 
 /-! ### bytes → entries (used by the driver to run the real chunking of C01 through validation) -/
 
-def groupN {α} (n : Nat) : Nat → List α → List (List α)
-  | 0, _ => []
-  | _, [] => []
-  | fuel+1, l => l.take n :: groupN n fuel (l.drop n)
-
-def entriesOf (n : Nat) (b : Bytes) : List Entry :=
-  let ls := linesOf b
-  groupN n (ls.length) ls |>.filter (fun e => e.length == n)
+def entriesOf (n : Nat) (b : Bytes) : List Entry := entriesK n b
 
 /-- end-to-end model: read in chunks (C01 model), validate each delivered chunk in order -/
 def readValidate (n : Nat) (marker : Nat) (checkPlus : Bool) (mode : Mode) (file : Bytes) (k : Nat) : Option Nat :=
